@@ -42,12 +42,16 @@ type world struct {
 	builders []*acmelib.CANIDBuilder
 	detached []any
 
-	hasMux   bool
-	deep     bool
-	hintOps  int // failing mutators that set and clear an error-context hint
-	buildOps int
-	buildErr int
-	desc     string
+	hasMux     bool
+	ovfBuilder int   // index in builders of the builder with operations past bit 31
+	ovfBuses   []int // buses sharing it
+	ifaceBus   []int // per interface: bus index or -1
+	msgBus     []int // per message: bus it is sent on, or -1
+	deep       bool
+	hintOps    int // failing mutators that set and clear an error-context hint
+	buildOps   int
+	buildErr   int
+	desc       string
 }
 
 func try(w *world, f func() error) (ok bool) {
@@ -153,6 +157,24 @@ func buildWorld(r *rng, idx int, allowMux bool) *world {
 		}
 		w.builders = append(w.builders, b)
 	}
+	// a builder whose operations do not fit the 32 bits of a CAN-ID (all legal through Use*):
+	// from+len > 32, from >= 32, len 0, len > 32.  calculateOp must cope with them WITHOUT touching
+	// the shared operation objects; it is shared by two buses below.
+	ovf := acmelib.NewCANIDBuilder("builder_overflow")
+	ovf.UseNodeID(0, 4).UseMessageID(24, 11).UseNodeID(28, 8).UseMessagePriority(31)
+	switch r.intn(4) {
+	case 0:
+		ovf.UseBitMask(30, 4)
+	case 1:
+		ovf.UseNodeID(33, 2).UseMessageID(4, 0)
+	case 2:
+		ovf.UseBitMask(0, 40)
+	default:
+		ovf.UseMessageID(2, 31).UseBitMask(30, 4)
+	}
+	w.builders = append(w.builders, ovf)
+	w.ovfBuilder = len(w.builders) - 1
+	shareOvf := allowMux || r.chance(60)
 
 	// ---- buses ----------------------------------------------------------------------------
 	nb := 2 + r.intn(3)
@@ -161,7 +183,10 @@ func buildWorld(r *rng, idx int, allowMux bool) *world {
 		if r.chance(80) {
 			b.SetBaudrate([]int{125000, 250000, 500000, 1000000}[r.intn(4)])
 		}
-		if r.chance(60) {
+		if shareOvf && i < 2 {
+			b.SetCANIDBuilder(ovf) // buses 0 and 1 share the overflow builder
+			w.ovfBuses = append(w.ovfBuses, i)
+		} else if r.chance(60) {
 			b.SetCANIDBuilder(w.builders[r.intn(len(w.builders))])
 		}
 		if r.chance(50) {
@@ -186,10 +211,14 @@ func buildWorld(r *rng, idx int, allowMux bool) *world {
 		for k, ni := range n.Interfaces() {
 			ni := ni
 			b := w.buses[(first+k)%nb]
+			onBus := -1
 			if r.chance(90) {
-				try(w, func() error { return b.AddNodeInterface(ni) })
+				if try(w, func() error { return b.AddNodeInterface(ni) }) {
+					onBus = (first + k) % nb
+				}
 			}
 			w.ifaces = append(w.ifaces, ni)
+			w.ifaceBus = append(w.ifaceBus, onBus)
 		}
 	}
 
@@ -227,7 +256,7 @@ func buildWorld(r *rng, idx int, allowMux bool) *world {
 		}
 		assignSome(s, 20)
 	}
-	for _, ni := range w.ifaces {
+	for niIdx, ni := range w.ifaces {
 		nm := r.intn(4)
 		for j := 0; j < nm; j++ {
 			size := 1 + r.intn(8)
@@ -289,9 +318,13 @@ func buildWorld(r *rng, idx int, allowMux bool) *world {
 					}
 				}
 			}
+			sentOn := -1
 			if r.chance(92) {
-				try(w, func() error { return ni.AddSentMessage(m) })
+				if try(w, func() error { return ni.AddSentMessage(m) }) {
+					sentOn = w.ifaceBus[niIdx]
+				}
 			}
+			w.msgBus = append(w.msgBus, sentOn)
 			for _, rc := range w.ifaces {
 				if rc != ni && r.chance(20) {
 					rc := rc
@@ -428,10 +461,10 @@ func (w *world) addDeepNesting(r *rng) bool {
 		}
 	}
 	var ni *acmelib.NodeInterface
-	for _, x := range w.ifaces {
-		if x.ParentBus() != nil {
-			ni = x
-			break
+	niBus := -1
+	for i, x := range w.ifaces { // prefer a bus that uses the overflow builder
+		if w.ifaceBus[i] >= 0 && (ni == nil || (w.ifaceBus[i] < 2 && len(w.ovfBuses) > 0 && niBus >= 2)) {
+			ni, niBus = x, w.ifaceBus[i]
 		}
 	}
 	if ni == nil || !ok {
@@ -442,6 +475,7 @@ func (w *world) addDeepNesting(r *rng) bool {
 		return false
 	}
 	w.msgs = append(w.msgs, msg)
+	w.msgBus = append(w.msgBus, niBus)
 	w.muxes = append(w.muxes, outer, inner)
 	w.sigs = append(w.sigs, outer, inner, es, ss)
 	w.hasMux = true
